@@ -348,3 +348,50 @@ H("C04", "sqpack_mod", "c02_pipeline_witness", expect="witness-fail", bounds="as
 _Z = ["libz_rs_sys::inflateInit2_ / inflate / inflateEnd -> nondeterministic status codes + ghost live-stream counter"]
 H("C18", "compression", "c18_inflate_stream_released", unwind=4, bounds="every combination of zlib status codes", encodes=["compression::no_header_decompress"], stubs=_Z, replay="structural")
 H("C18", "compression", "c18c_pipeline_witness", expect="witness-fail", bounds="assert(false) twin", stubs=_Z)
+
+# ================================================================================================
+# C09 — character presets / gear sets
+# ================================================================================================
+_MC = ["core::slice::memchr::memchr_aligned -> naive forward scan"]
+for n, t in (("empty_comment", "thorough"), ("ascii_comment", "thorough"), ("non_ascii_comment", "quick")):
+    H("C09", "chardat", "c09_checksum_" + n, tier=t, unwind=200, timeout=600, bounds="all 24 byte-valued appearance fields, all timestamps (symbolic); race/tribe/gender and comment text concrete (" + n + ")",
+      encodes=["chardat::CharacterData::calc_checksum", "chardat::CustomizeData (BinWrite)", "common_file_operations::write_string"], stubs=_MC, cbmc_args=FS256)
+for n in ("ascii", "empty"):
+    H("C09", "chardat", "c09_written_layout_" + n, tier="quick" if n == "ascii" else "thorough", unwind=200, timeout=600, bounds="all appearance field values / version / timestamp (symbolic); tags and comment concrete (" + n + ")",
+      encodes=["chardat::CharacterData (BinWrite)", "chardat::CharacterData::calc_checksum"], stubs=_MC, cbmc_args=FS256)
+H("C09", "chardat", "c09_parse_field_positions", tier="thorough", unwind=200, timeout=900, bounds="212-byte file, all appearance bytes / version / timestamp / stored checksum symbolic; tags and comment concrete",
+  encodes=["chardat::CharacterData::from_existing"], cbmc_args=FS256)
+H("C09", "chardat", "c09_pipeline_witness", expect="witness-fail", bounds="assert(false) twin", stubs=_MC, cbmc_args=FS256)
+H("C09", "gearsets", "c09_gear_id_marker_disjoint_ids", bounds="all u32 ids sharing no bit with 1_000_000", encodes=["gearsets::convert_to_gear_id", "gearsets::convert_from_gear_id"])
+H("C09", "gearsets", "c09_gear_id_marker_overlapping_ids", bounds="all ids < 1_000_000 sharing a bit with 1_000_000", encodes=["gearsets::convert_to_gear_id", "gearsets::convert_from_gear_id"])
+H("C09", "gearsets", "c09_optional_ids", bounds="all u32", encodes=["gearsets::convert_id_opt", "gearsets::convert_opt_id"])
+H("C09", "gearsets", "c09_gear_slot_layout", unwind=10, timeout=300, bounds="all item ids (disjoint from the marker), glamour ids, five unknown words", encodes=["gearsets::GearSlot (BinRead/BinWrite)"])
+H("C09", "gearsets", "c09_dat_header_layout", unwind=10, timeout=300, bounds="all sizes", encodes=["dat::DatHeader (BinRead/BinWrite)"])
+H("C09", "gearsets", "c09_slot_type_tables", unwind=4, bounds="all usize", encodes=["gearsets::GearSlotType::try_from", "gearsets::GearSlotType::to_slot"])
+H("C09", "gearsets", "c09_gearset_table_positions", tier="thorough", unwind=104, timeout=900, bounds="100-entry list with positions 0, 57, 99 occupied (symbolic index bytes)", encodes=["gearsets::convert_to_gearsets"],
+  stubs=["std::hash::RandomState::new -> fixed keys"])
+H("C09", "gearsets", "c09g_pipeline_witness", expect="witness-fail", bounds="assert(false) twin")
+
+# ================================================================================================
+# C10 — file info tables
+# ================================================================================================
+for n, t in (("name8", "quick"), ("name1", "quick"), ("name63", "thorough")):
+    H("C10", "fiin", "c10_entry_layout_" + n, tier=t, unwind=70, timeout=300, bounds="one record: all sizes, all digests (symbolic), concrete name " + n, encodes=["fiin::FIINEntry (BinWrite)"], cbmc_args=FS256)
+H("C10", "fiin", "c10_table_layout_one_entry", unwind=70, timeout=600, bounds="table with one entry: all sizes / digests", encodes=["fiin::FileInfo (BinWrite)"], cbmc_args=["--max-field-sensitivity-array-size", "2048"])
+H("C10", "fiin", "c10_parse_one_entry", unwind=70, timeout=600, bounds="1120-byte table: all sizes / digest bytes, concrete name", encodes=["fiin::FileInfo::from_existing"], cbmc_args=["--max-field-sensitivity-array-size", "2048"])
+H("C10", "fiin", "c10_pipeline_witness", expect="witness-fail", unwind=70, bounds="assert(false) twin", cbmc_args=FS256)
+
+# ================================================================================================
+# C16 — auxiliary decoders
+# ================================================================================================
+H("C16", "pbd", "c16_deform_chain_walk", unwind=20, timeout=300, bounds="4-node tree with link table permuted against the item table; 5 concrete queries; all matrix values (symbolic)",
+  encodes=["pbd::PreBoneDeformer::get_deform_matrices"], cbmc_args=FS1K)
+H("C16", "pbd", "c16p_pipeline_witness", expect="witness-fail", unwind=8, bounds="assert(false) twin", cbmc_args=FS1K)
+H("C16", "cmp", "c16_scaling_row_exact", unwind=6, timeout=300, bounds="all 56-byte rows", encodes=["cmp::RacialScalingParameters (binrw)"])
+H("C16", "cmp", "c16c_pipeline_witness", expect="witness-fail", unwind=6, bounds="assert(false) twin")
+_FMT = ["alloc::fmt::format -> returns an empty String (file-name formatting is not the subject)"]
+H("C16", "tera", "c16_terrain_plate_positions", unwind=6, timeout=200, bounds="2 plates: all i16 coordinates, all plate sizes <= 4096", encodes=["tera::Terrain::from_existing", "tera::TerrainHeader (binrw)"],
+  stubs=_FMT, cbmc_args=FS256)
+H("C16", "tera", "c16_terrain_write_grid_coordinates", unwind=6, timeout=600, bounds="1 plate on the 128-unit grid: all i16 x, y", encodes=["tera::Terrain::write_to_buffer"], cbmc_args=FS256)
+H("C16", "tera", "c16t_pipeline_witness", expect="witness-fail", unwind=6, bounds="assert(false) twin")
+H("C18", "cmp", "c18_cmp_short_buffer", unwind=6, timeout=300, bounds="all 12-byte buffers (shorter than the table offset 0x2a800)", encodes=["cmp::CMP::from_existing"])
